@@ -264,6 +264,11 @@ fn negative<H: Hasher>(out: &mut CaseOut, hname: &str, t: &TreeCtx<H>, pos: &[us
         let mut p = pos.to_vec();
         p[k] = pos[k] + n;
         expect_reject(out, hname, "a position moved out of range (+number of leaves)", &root, &p, proof, pinfo(&p));
+        for big in [usize::MAX, usize::MAX - 1, 1usize << (usize::BITS - 1), usize::MAX - n + 1 + pos[k]] {
+            let mut p = pos.to_vec();
+            p[k] = big;
+            expect_reject(out, hname, "a position replaced by a huge value", &root, &p, proof, pinfo(&p));
+        }
     }
     let mut p = pos.to_vec();
     p.push(pos[0]);
@@ -507,7 +512,7 @@ fn main() {
         kit::engine::die("merkle binary serves C10 only");
     }
     let run = Run::new(args, "exploration");
-    run.rule("trees of 2,4,8,16 leaves: every non-empty position subset (65535 for 16 leaves) with every order of subsets of size <= 4 and two orders of larger ones; deeper trees (32..1024 leaves): all singletons and pairs, all contiguous runs, 64 seed-derived sets of up to 255 positions; for every opening of the exhaustive trees (sorted list, every order of up to 3 positions, up to three orders of larger lists) every single-element mutation (each leaf, each node) and every shape mutation (node deleted / duplicated / appended / moved, node vector or leaf added / removed, depth -1,+1,0,62..65,255, positions replaced / out of range / duplicated / added / dropped / swapped / empty / 256, wrong root); single paths: each element replaced / removed, appended, truncated to 0/1, every other index, out-of-range indexes; Blake3_256 exhaustively to 16 leaves, the other five hashers to 8 leaves; a case is non-trivial when the honest opening was produced and verified (distinct by enumeration index)");
+    run.rule("trees of 2,4,8,16 leaves: every non-empty position subset (65535 for 16 leaves) with every order of subsets of size <= 4 and two orders of larger ones; deeper trees (32..1024 leaves): all singletons and pairs, all contiguous runs, 64 seed-derived sets of up to 255 positions; for every opening of the exhaustive trees (sorted list, every order of up to 3 positions, up to three orders of larger lists) every single-element mutation (each leaf, each node) and every shape mutation (node deleted / duplicated / appended / moved, node vector or leaf added / removed, depth -1,+1,0,62..65,255, positions replaced / out of range / huge (2^63, 2^64-1, 2^64-n+p) / duplicated / added / dropped / swapped / empty / 256, wrong root); single paths: each element replaced / removed, appended, truncated to 0/1, every other index, out-of-range indexes; Blake3_256 exhaustively to 16 leaves, the other five hashers to 8 leaves; a case is non-trivial when the honest opening was produced and verified (distinct by enumeration index)");
     run.assume("hash functions are collision-free on the harness' distinct leaves; the canonical opening for (tree, positions) is the value prove_batch returns, whose sufficiency is established by naive recomputation (verify, into_paths == naive paths)");
     let thorough = run.tier().is_thorough();
     let mut subs = vec![];
